@@ -107,7 +107,7 @@ def interp(skind, series, pos, neg, t, s, mode, dt):
     return at(pos, c) * math.exp(-el / TD) - at(neg, c) * math.exp(-el / TR)
 
 
-def shard(conn, skind, dt, maxk, fractional, T, F=2, only_assign=None, only_clear=(), tol=0.0):
+def shard(conn, skind, dt, maxk, fractional, T, F=2, only_assign=None, only_clear=(), tol=0.0, alphabet_override=None):
     tally = Tally()
     maxdelay = maxk * dt
     W = weight_for(conn, F)
@@ -116,7 +116,9 @@ def shard(conn, skind, dt, maxk, fractional, T, F=2, only_assign=None, only_clea
     insize = CONV_GEOM[conn][0] * CONV_GEOM[conn][1] if isconv else 2
     hs = histories(T, insize)
     B = len(hs)
-    if fractional:
+    if alphabet_override is not None:
+        alphabet = list(alphabet_override)
+    elif fractional:
         alphabet = [k / 2 for k in range(0, 2 * maxk + 1)]
     else:
         alphabet = list(range(0, maxk + 1))
@@ -126,7 +128,7 @@ def shard(conn, skind, dt, maxk, fractional, T, F=2, only_assign=None, only_clea
         x = torch.tensor([h[t] for h in hs], dtype=torch.bool)
         xs.append(x.reshape(B, 1, CONV_GEOM[conn][0], CONV_GEOM[conn][1]) if isconv else x)
     cfg = {"conn": conn, "synapse": skind, "dt": dt, "max_delay": maxdelay, "maxk": maxk, "fractional": fractional, "T": T, "F": F,
-           "batch=histories": B, "interp_tol": tol}
+           "batch=histories": B, "interp_tol": tol, "delay_alphabet": alphabet_override}
     mode = "previous"
     for assign in itertools.product(alphabet, repeat=len(pos)):
         if only_assign is not None and list(assign) != list(only_assign):
@@ -265,6 +267,8 @@ def run(rep):
     # tolerance that dominates rounding, which the synapse then has to honour for currents AND spikes
     for skind in ("delta", "exp"):
         jobs.append((shard, ("direct", skind, 1.3, 3, False, T + 1, 2, None, (), 1e-6)))
+    # ... and of 3, 6 and 7 steps, the multiples whose float32 product differs from the float32 step time times k
+    jobs.append((shard, ("direct", "delta", 1.3, 7, False, 8, 2, None, (), 1e-6, (0, 3, 6, 7))))
     # a 2x2 kernel: row/column order of the per-kernel-element delays matters (2x3 input, 64 input letters -> shorter histories)
     for skind in ("delta", "exp") if quick else ("delta", "deltaplus", "exp", "dexp"):
         jobs.append((shard, ("conv22", skind, 1.0, 1 if quick else 2, False, 2, 1)))
@@ -295,5 +299,6 @@ def run(rep):
 
 def replay(case):
     t = shard(case["conn"], case["synapse"], case["dt"], case["maxk"], case["fractional"], case["T"], case.get("F", 2),
-              only_assign=case["delays_in_steps"], only_clear=case["clear_before_step"], tol=case.get("interp_tol", 0.0))
+              only_assign=case["delays_in_steps"], only_clear=case["clear_before_step"], tol=case.get("interp_tol", 0.0),
+              alphabet_override=case.get("delay_alphabet"))
     return {"violations": [[v["key"], v["message"]] for v in t.violations]}
